@@ -17,17 +17,17 @@ use crate::clause::term::Sink;
 use crate::{Clause, MockFnInfo, Unimock};
 
 /// A clause whose number of sub-clauses is decided at run time.
-pub struct DynClause {
+pub struct DynClause<'a> {
     #[allow(clippy::type_complexity)]
-    items: Vec<Box<dyn FnOnce(&mut dyn Sink) -> Result<(), String>>>,
+    items: Vec<Box<dyn FnOnce(&mut dyn Sink) -> Result<(), String> + 'a>>,
 }
 
-impl DynClause {
+impl<'a> DynClause<'a> {
     pub fn new() -> Self {
         Self { items: Vec::new() }
     }
 
-    pub fn push<C: Clause + 'static>(&mut self, clause: C) {
+    pub fn push<C: Clause + 'a>(&mut self, clause: C) {
         self.items
             .push(Box::new(move |sink| clause.deconstruct(sink)));
     }
@@ -41,13 +41,13 @@ impl DynClause {
     }
 }
 
-impl Default for DynClause {
+impl Default for DynClause<'_> {
     fn default() -> Self {
         Self::new()
     }
 }
 
-impl Clause for DynClause {
+impl Clause for DynClause<'_> {
     fn deconstruct(self, sink: &mut dyn Sink) -> Result<(), String> {
         for item in self.items {
             item(sink)?;
